@@ -25,7 +25,7 @@ pub fn main(args: &Args) {
     rep.absorb(t);
     rep.set("programs", json!(spec.programs.len()));
     rep.rule = format!(
-        "{} generated enums (1-3 variants over 9 variant kinds: unit, renamed, skipped, word, newtype of u32 / Option / struct, struct, skipped struct; x container configurations: rename_all rules, from_word, from_none, allow_unknown_fields) compiled against the working tree. Inputs per enum: the bare word; name-value with every effective name, every Rust name, every name under every other case rule, skipped names, near misses, non-string values; the list form with every sequence of 0..{} nested items over a per-enum alphabet (7 forms per variant name + literal + unknown); the absent form. Oracle: reference interpreter (selected variant and payload, or error leaves with path). states = inputs (nodes of the sequence trees); non-trivial = inputs the model rejects.",
+        "{} generated enums (plus enums of 9 and 17 variants, irregular / one-character / keyword-free odd names under every case rule, an empty-braced variant, a Flag newtype; malformed bodies inside every variant; every input also with its values in invisible groups) (1-3 variants over 9 variant kinds: unit, renamed, skipped, word, newtype of u32 / Option / struct, struct, skipped struct; x container configurations: rename_all rules, from_word, from_none, allow_unknown_fields) compiled against the working tree. Inputs per enum: the bare word; name-value with every effective name, every Rust name, every name under every other case rule, skipped names, near misses, non-string values; the list form with every sequence of 0..{} nested items over a per-enum alphabet (7 forms per variant name + literal + unknown); the absent form. Oracle: reference interpreter (selected variant and payload, or error leaves with path). states = inputs (nodes of the sequence trees); non-trivial = inputs the model rejects.",
         spec.programs.len(),
         args.tier.pick(2, 3)
     );
